@@ -18,7 +18,6 @@ import (
 	"sort"
 	"strings"
 	realsync "sync"
-	realatomic "sync/atomic"
 
 	"github.com/EdgeCast/vflow/ipfix"
 	netflow5 "github.com/EdgeCast/vflow/netflow/v5"
@@ -150,17 +149,24 @@ func pipeMQ(p int) chan []byte {
 	return sFlowMQCh
 }
 
-// pipeStatsQuiet reads the counters without scheduling points (for conditions evaluated by the scheduler)
+// pipeStatsQuiet reads the counters without scheduling points AND invisibly to the race detector (plain
+// loads inside a norace function; exactly one thread runs at a time, so the values are consistent). A harness
+// that looks at the counters before it sends the signal must not thereby give the shutdown path a
+// happens-before edge from the receive loop: an atomic load here would hide every race between what the
+// receive loop did before counting a datagram and what shutdown does after the signal (it hid the reverse of
+// fix 0eaa8bd until this was noticed).
+//
+//go:norace
 func pipeStatsQuiet(pr proto) (udp, decoded uint64) {
 	switch x := pr.(type) {
 	case *IPFIX:
-		return realatomic.LoadUint64(&x.stats.UDPCount), realatomic.LoadUint64(&x.stats.DecodedCount)
+		return x.stats.UDPCount, x.stats.DecodedCount
 	case *NetflowV9:
-		return realatomic.LoadUint64(&x.stats.UDPCount), realatomic.LoadUint64(&x.stats.DecodedCount)
+		return x.stats.UDPCount, x.stats.DecodedCount
 	case *NetflowV5:
-		return realatomic.LoadUint64(&x.stats.UDPCount), realatomic.LoadUint64(&x.stats.DecodedCount)
+		return x.stats.UDPCount, x.stats.DecodedCount
 	case *SFlow:
-		return realatomic.LoadUint64(&x.stats.UDPCount), realatomic.LoadUint64(&x.stats.DecodedCount)
+		return x.stats.UDPCount, x.stats.DecodedCount
 	}
 	return 0, 0
 }
@@ -1034,13 +1040,13 @@ func runShutdown(it shutItem, al map[string]pdgram, cacheFile string, out *shutO
 		// template datagrams the receive loop had READ (counted in UDPCount) before the signal was sent:
 		// datagrams are read in order, so these are the first <count> of this cycle
 		var before []string
-		base, _ := pipeStats(pr)
+		base, _ := pipeStatsQuiet(pr)
 		signal := func(delivered int) {
 			if it.waitRead {
 				want := base + uint64(delivered)
 				sched.WaitCond(func() bool { g, _ := pipeStatsQuiet(pr); return g >= want }, "datagrams read")
 			}
-			got, _ := pipeStats(pr)
+			got, _ := pipeStatsQuiet(pr)
 			for k := 0; k < delivered && k < int(got-base); k++ {
 				if tplOf[it.inflight[k]] != 0 {
 					before = append(before, it.inflight[k])
